@@ -114,6 +114,82 @@ def to_abstract(x):
     return out
 
 
+def impl_to_abstract(x):
+    """Harness AST (a shipped file) -> abstract Fmt.tla shape, good enough for the spec to say WHICH
+    deviations touch the file (numbers outside the pools are replaced by stand-ins of the same class:
+    only `devs` of the answer is used, never the canonical text)."""
+    from . import render as R
+    if isinstance(x, list):
+        return [impl_to_abstract(y) for y in x]
+    if "e" not in x:
+        o = {"s": x["s"], "x": impl_to_abstract(x["x"])}
+        if x["s"] == "let":
+            o["nm"], o["con"] = abs_name(x["nm"]), impl_to_abstract(x.get("con") or [])
+        elif x["s"] == "out":
+            o["fmt"] = x["fmt"]
+        elif x["s"] == "constraint":
+            o["nm"] = abs_name(x["nm"])
+        return o
+    k = x["e"]
+    A = impl_to_abstract
+
+    def flds(fs):
+        return [{"nm": abs_name(f["nm"]), "q": bool(f.get("q")), "con": A(f.get("con") or []), "ex": A(f["ex"])} for f in fs]
+    if k == "lit":
+        v = x["val"]
+        t = v["t"]
+        if t == "int":
+            return {"e": "lit", "v": {"t": "int", "i": v["i"] if 0 <= v["i"] < 2 ** 30 else 7}}
+        if t == "float":
+            f = R.float_from_bits(v["bits"])
+            if f == int(f) and 0 <= f < 2 ** 30:
+                return {"e": "lit", "v": {"t": "float", "fn": int(f), "fk": 0}}
+            if f == int(f):
+                return {"e": "lit", "v": {"t": "float", "cls": "big"}}
+            return {"e": "lit", "v": {"t": "float", "fn": 3, "fk": 1}}
+        if t == "str":
+            return {"e": "lit", "v": {"t": "str", "s": abs_chars(v["s"])}}
+        return {"e": "lit", "v": v}
+    if k == "sym":
+        return {"e": "sym", "nm": abs_name(x["nm"])}
+    if k == "tuple":
+        return {"e": k, "flds": flds(x["flds"])}
+    if k == "list":
+        return {"e": k, "xs": A(x["xs"])}
+    if k in ("not", "fail", "trace", "grp"):
+        return {"e": k, "x": A(x["x"])}
+    if k == "convert":
+        return {"e": k, "fmt": x["fmt"], "x": A(x["x"])}
+    if k == "cast":
+        return {"e": k, "ty": x["ty"], "x": A(x["x"])}
+    if k == "call":
+        return {"e": k, "fn": abs_name(x["fn"]["nm"]), "args": A(x["args"])}
+    if k == "copy":
+        return {"e": k, "sel": abs_name(x["sel"]["nm"]), "flds": flds(x["flds"])}
+    if k == "range":
+        return {"e": k, "lo": A(x["lo"]), "step": A(x["step"]), "hi": A(x["hi"])}
+    if k == "func":
+        return {"e": k, "ps": [{"nm": abs_name(p["nm"]), "con": A(p.get("con") or [])} for p in x["ps"]], "body": A(x["body"])}
+    if k == "select":
+        return {"e": k, "x": A(x["x"]), "dflt": A(x["dflt"]), "flds": flds(x["flds"])}
+    if k == "fop":
+        return {"e": k, "kind": x["kind"], "fn": A(x["fn"]), "acc": A(x["acc"]), "tgt": A(x["tgt"])}
+    if k == "module":
+        return {"e": k, "ps": flds(x["ps"]), "out": A(x["out"]), "outcon": A(x.get("outcon") or []), "body": A(x["body"])}
+    if k == "fmt":
+        return {"e": k, "form": x["form"], "tpl": abs_chars(x["tpl"]), "args": A(x["args"])}
+    if k == "import":
+        return {"e": k, "path": abs_chars(x["path"])}
+    if k == "include":
+        return {"e": k, "ty": x["ty"], "path": abs_chars(x["path"])}
+    if k == "constraint":
+        return {"e": k, "arms": [{"a": "range", "lo": A(a["lo"]), "hi": A(a["hi"])} if a["a"] == "range"
+                                 else {"a": "shape", "x": A(a["x"])} for a in x["arms"]]}
+    if k == "bin":
+        return {"e": k, "op": x["op"], "l": A(x["l"]), "r": A(x["r"])}
+    raise ValueError("harness ast kind %r" % k)
+
+
 # ---------------------------------------------------------------------------
 # the text pipeline (runs in worker processes)
 # ---------------------------------------------------------------------------
@@ -253,7 +329,7 @@ def work_programs(h, items):
 
 
 def work_files(h, items):
-    jobs = [{"tag": "file:" + p, "text": t} for p, t in items]
+    jobs = [{"tag": "file:" + p, "text": t, "devs": devs} for p, t, devs in items]
     res = run_jobs(h, jobs)
     return [{"tag": j["tag"], "variant": "file", "text": j["text"], "ntoks": 99, "ncomments": r.get("ncomments", 0),
              "issues": r["issues"], "f1": r["f1"], "skipped": r["skipped"], "fixed_checked": r.get("fixed_checked", False)}
@@ -594,19 +670,29 @@ def main(tier, replay=None):
     if need - kinds:
         raise C.ToolError("the AST domain lacks %r" % sorted(need - kinds))
 
-    # ---- programs of the C01 generator, with the canonical text Fmt.tla gives them
+    # ---- programs of the C01 generator and the shipped files: what Fmt.tla says about them
     gprogs = gen_programs(tier, gd, cmds, counts)
+    files = shipped_files()
+    hh = C.Harness(hp)
+    fparsed = hh.batch([{"op": "parse", "src": t} for _, t in files])
+    hh.close()
     given = os.path.join(gd, "given.ndjson")
+    file_ix = {}
     with open(given, "w") as f:
+        n = 0
         for _, p in gprogs:
+            n += 1
             f.write(json.dumps({"prog": to_abstract(p)}) + "\n")
-    gcases = {}
-    if gprogs:
-        given_cfg = write_cfg(gd, "given", {"KnownDevs": tla_set(kcanon)}, "GivenInit", "GivenNext", ["GivenEmit"])
-        rg = tlc("MC_FmtGiven", given_cfg, "Canon of the C01 generator programs", env_extra={"C05_GIVEN": given})
-        gcases = {c["n"]: c for c in rg.replays}
-        if len(gcases) != len(gprogs):
-            raise C.ToolError("FmtGiven emitted %d of %d programs" % (len(gcases), len(gprogs)))
+        for (rel, _), pr in zip(files, fparsed):
+            if pr.get("ok"):
+                n += 1
+                file_ix[rel] = n
+                f.write(json.dumps({"prog": impl_to_abstract(pr["stmts"])}) + "\n")
+    given_cfg = write_cfg(gd, "given", {"KnownDevs": tla_set(kcanon)}, "GivenInit", "GivenNext", ["GivenEmit"])
+    rg = tlc("MC_FmtGiven", given_cfg, "Canon of the C01 generator programs and the shipped files", env_extra={"C05_GIVEN": given})
+    gcases = {c["n"]: c for c in rg.replays}
+    if len(gcases) != n:
+        raise C.ToolError("FmtGiven emitted %d of %d programs" % (len(gcases), n))
 
     # ---- replay: programs in random layouts
     K = 4 if quick else 8
@@ -635,8 +721,8 @@ def main(tier, replay=None):
     presults = C.proc_map(hp, work_place, pitems, chunk=200, workers=10)
     stats["place_replayed"] = len(presults)
     # ---- the shipped files
-    files = shipped_files()
-    fresults = C.proc_map(hp, work_files, files, chunk=20, workers=8)
+    fitems = [(rel, t, gcases[file_ix[rel]]["devs"] if rel in file_ix else []) for rel, t in files]
+    fresults = C.proc_map(hp, work_files, fitems, chunk=20, workers=8)
 
     bin_texts = []
     for r in results + fresults:
@@ -672,6 +758,13 @@ def main(tier, replay=None):
     bin_texts += ["let a = 1;\n// c\n", "let broken = ;\n"]
     binary_sample(C.ensure_ucg(), hp, bin_texts, rep, stats)
 
+    if os.environ.get("C05_DUMP"):
+        with open(os.environ["C05_DUMP"], "w") as f:
+            for key, case in rep.violations:
+                f.write(json.dumps({"key": key, "case": case}, ensure_ascii=False) + "\n")
+            for key, cases in rep.matched.items():
+                for case in cases:
+                    f.write(json.dumps({"key": key, "known": True, "case": case}, ensure_ascii=False) + "\n")
     code = rep.finish()
     C.write_evidence(PID, tier, "model_checking", {
         "states": counts["states"], "transitions": counts["transitions"],
